@@ -84,6 +84,9 @@ type world struct {
 	lastDetail map[string]string
 	lastProbe  map[string]probe
 	lastHBOp   time.Time // completion of the holder's latest operation on the heart-beat file
+	// handles: a write through a handle opened before the acquisition under observation (the writer of an earlier
+	// acquisition by the same object, finishing late) goes to a file that has been unlinked since: it is no sign of life
+	maxHandle, minHandle int64
 }
 
 // probe is what an observer's decisive stat was served with.
@@ -97,6 +100,12 @@ func (w *world) after(op *fsx.Op) {
 	now := time.Unix(0, op.End)
 	w.mu.Lock()
 	defer w.mu.Unlock()
+	if op.Handle > w.maxHandle {
+		w.maxHandle = op.Handle
+	}
+	if op.Client == "holder" && op.Handle != 0 && op.Handle < w.minHandle {
+		return
+	}
 	switch {
 	case op.Client == "holder" && op.Path == w.hbPath && op.Kind == "openfile":
 		// start of a heart-beat
@@ -318,6 +327,7 @@ func runCase(t ev.T, test string, c Case, confirmed bool) (suspectNoHeartBeat bo
 		// forget what was recorded about the first acquisition
 		w.mu.Lock()
 		w.beats, w.dirStamp, w.lastHBOp = nil, time.Time{}, time.Time{}
+		w.minHandle = w.maxHandle + 1
 		w.mu.Unlock()
 		holderOps.Store(0)
 		hbIssued.Store(0)
